@@ -5,6 +5,7 @@
 //!   wbverif list
 
 #![allow(dead_code)]
+mod cluster;
 mod evidence;
 mod interp;
 mod jgen;
